@@ -52,7 +52,7 @@ ASSUMPTIONS = [
     "Q registers (scratch electron register) and C15 (end no-op) are excluded from the classical comparison",
 ]
 PROBES = ["branch-crosses-expansion", "carbon-carbon-gate", "end-label-target", "loop", "if", "measure-feeds-branch",
-          "debug-on", "three-qubits", "s-or-t-gate", "q-register-by-load"]
+          "debug-on", "three-qubits", "s-or-t-gate", "q-register-by-load", "carbon-carbon-burst"]
 
 G1 = ["x", "y", "z", "h", "k", "s", "t"]
 Q = [("Q", 0), ("Q", 1)]
@@ -131,6 +131,13 @@ class ProgGen:
 
     def program(self) -> List[tuple]:
         body = self.block(0)
+        if self.n >= 3 and self.ch.flag(1, 12, "ccburst"):
+            # a long run of carbon-carbon gates: every one borrows the electron through a scratch register
+            self.kinds.add("carbon-carbon-burst")
+            self.kinds.add("carbon-carbon-gate")
+            for _ in range(16 + self.ch.draw(6, "nburst")):
+                a, b = (1, 2) if self.ch.flag(1, 2, "dir") else (2, 1)
+                body += [("set", ("Q", 0), a), ("set", ("Q", 1), b), (self.ch.pick(["cnot", "cphase"]), ("Q", 0), ("Q", 1))]
         # optionally end with a conditional whose exit label is just past the end
         if self.ch.flag(1, 3, "endlabel"):
             tail = self.gate()
@@ -184,7 +191,7 @@ class Side:
         self.node.init_app(0, 4)
         self.garbage: set = set()
 
-    def run_bytes(self, raw: bytes, cap: int = 4000) -> None:
+    def run_bytes(self, raw: bytes, cap: int = 12000) -> None:
         n = 0
         for _ in self.node.handle_raw(raw):
             n += 1
